@@ -107,6 +107,14 @@ static long g_corrupt = 0, g_oob = 0;
 
 // Every byte after the serial number is a function of (serial, position): a write into the callable's storage by
 // anybody else (e.g. invoke_ stored over the tail of an over-long inline callable) is noticed at the next check.
+// Pool frees are placed in the event trace where they HAPPEN relative to the callable's own events: the callable samples the
+// thread-local cache counts when it is invoked and when its destructor starts; a block that has come back by then is traced ('F')
+// before the V / D event (a block released before the destructor of the callable living in it has run is a use after free).
+static long g_poolBefore[7];
+static long g_pfEmitted[7];
+static bool g_sampling = false;
+static void samplePoolFrees();
+
 template <size_t Size, size_t Align>
 struct Fn {
   using Blob = life::S<Size, Align, 0>;
@@ -125,8 +133,9 @@ struct Fn {
   explicit Fn(int tag) : s(tag) { fill(); }
   Fn(const Fn& o) : s(o.s) { o.verify(); fill(); }
   Fn(Fn&& o) noexcept : s(std::move(o.s)) { o.verify(); fill(); }
-  ~Fn() { verify(); }
+  ~Fn() { samplePoolFrees(); verify(); }
   void operator()() {
+    samplePoolFrees();
     verify();
     s.touch();
     Led::note('V', s.key(), this, s.get());
@@ -141,6 +150,17 @@ static long poolCount() {
 static void poolCounts(long* out) {
   out[0] = poolCount<4>(); out[1] = poolCount<8>(); out[2] = poolCount<16>(); out[3] = poolCount<32>();
   out[4] = poolCount<64>(); out[5] = poolCount<128>(); out[6] = poolCount<256>();
+}
+
+static void samplePoolFrees() {
+  if (!g_sampling) return;
+  long cur[7];
+  poolCounts(cur);
+  for (int c = 0; c < 7; ++c) {
+    long delta = cur[c] - g_poolBefore[c] - g_pfEmitted[c];
+    for (long n = 0; n < delta; ++n) Led::note('F', 0, nullptr, static_cast<int>(kClasses[c]));
+    if (delta > 0) g_pfEmitted[c] += delta;
+  }
 }
 
 struct GridEntry {
@@ -227,6 +247,8 @@ static bool apply(char op, int i, int a, int t, std::string& out) {
   if (i < 0 || i >= NV) return false;
   long before[7], after[7];
   poolCounts(before);
+  for (int c = 0; c < 7; ++c) { g_poolBefore[c] = before[c]; g_pfEmitted[c] = 0; }
+  g_sampling = true;
   Led::take_trace();
   g_mevLen[0] = g_mevLen[1] = 0; g_mev[0][0] = g_mev[1][0] = 0;
   g_track = true;
@@ -258,6 +280,7 @@ static bool apply(char op, int i, int a, int t, std::string& out) {
     default: ok = false;
   }
   g_track = false;
+  g_sampling = false;
   if (!ok) return false;
   poolCounts(after);
   std::ostringstream s;
@@ -267,6 +290,7 @@ static bool apply(char op, int i, int a, int t, std::string& out) {
   }
   s << g_mev[0];
   for (const life::Event& e : Led::take_trace()) {
+    if (e.what == 'F') { s << " PF" << e.tag; continue; }
     size_t al = (e.tag >= 0 && e.tag < (1 << 12)) ? g_alignOfTag[e.tag] : 1;
     size_t sz = (e.tag >= 0 && e.tag < (1 << 12)) ? g_sizeOfTag[e.tag] : 0;
     s << ' ' << e.what << e.tag << '@' << where(e.addr, al ? al : 1);
@@ -282,7 +306,7 @@ static bool apply(char op, int i, int a, int t, std::string& out) {
     }
   }
   for (int c = 0; c < 7; ++c) {
-    for (long n = before[c]; n < after[c]; ++n) s << " PF" << kClasses[c];
+    for (long n = before[c] + g_pfEmitted[c]; n < after[c]; ++n) s << " PF" << kClasses[c];
   }
   s << g_mev[1];
   out = s.str();
